@@ -485,3 +485,26 @@ func WaitGoroutines(n int, d time.Duration, subs ...string) bool {
 		time.Sleep(200 * time.Microsecond)
 	}
 }
+
+// HookWith is like Hook but calls pre (outside the counter's lock) before the event is counted;
+// pre may block or close the pipe.
+func HookWith(s mangos.Socket, pre func(ev mangos.PipeEvent, p mangos.Pipe)) *Events {
+	e := &Events{}
+	e.cv = sync.NewCond(&e.mu)
+	s.SetPipeEventHook(func(ev mangos.PipeEvent, p mangos.Pipe) {
+		if pre != nil {
+			pre(ev, p)
+		}
+		e.mu.Lock()
+		switch ev {
+		case mangos.PipeEventAttached:
+			e.attached++
+			e.Pipes = append(e.Pipes, p)
+		case mangos.PipeEventDetached:
+			e.detached++
+		}
+		e.cv.Broadcast()
+		e.mu.Unlock()
+	})
+	return e
+}
